@@ -159,6 +159,72 @@ def case(item):
     return res
 
 
+def large_case(item):
+    """Tables with more than 16 rows (sorting algorithms change behaviour with size): every (mutation, sample) cell has
+    its own counts, copy numbers, purity and error rate; one mutation is dropped by each filter; several row orders."""
+    n_mut, samples, sep, order_seed = item
+    import random as _r
+
+    muts = ["g%02d" % ((7 * i) % n_mut) for i in range(n_mut)]
+    spec = {}
+    rows = []
+    dropped = {muts[1]: "missing", muts[3]: "cn0", muts[4]: "dup"} if n_mut >= 6 else {}
+    for i, m in enumerate(muts):
+        for j, sname in enumerate(samples):
+            a, b = 25 + 3 * i + 11 * j, 4 + i + 5 * j
+            major, minor, normal = 1 + (i + j) % 3, 0, 1 + (i % 2)
+            minor = min(major, (i + 2 * j) % 3)
+            t, eps = (0.35, 0.7, 1.0)[j % 3], (1e-3, 0.02, 0.08)[(i + j) % 3]
+            kind = dropped.get(m) if j == len(samples) - 1 else None
+            if kind == "missing":
+                continue
+            r = [m, sname, str(a), str(b), str(0 if kind == "cn0" else major), str(0 if kind == "cn0" else minor), str(normal), repr(t), repr(eps)]
+            rows.append(r)
+            if kind == "dup":
+                rows.append(list(r))
+            spec[(m, sname)] = (a, b, major, minor, normal, t, eps)
+    keep = sorted(m for m in muts if m not in dropped)
+    rng = _r.Random(order_seed)
+    orders = [rows, rows[::-1], sorted(rows), sorted(rows, key=lambda r: (r[1], r[0])), sorted(rows, key=lambda r: (r[1], r[0]))[::-1]]
+    for _ in range(3):
+        sh = list(rows)
+        rng.shuffle(sh)
+        orders.append(sh)
+    res = {"item": item, "problems": [], "loads": 0}
+    d = scratch()
+    try:
+        f = os.path.join(d, "in.tsv" if sep == "\t" else "in.csv")
+        hdr = header(True)
+        ref = None
+        for perm in orders:
+            with open(f, "w") as fh:
+                fh.write(sep.join(hdr) + "\n" + "\n".join(sep.join(r) for r in perm) + "\n")
+            res["loads"] += 1
+            try:
+                data, smp = load(f, None)
+            except Exception as e:
+                res["problems"].append("load raised %s: %s" % (type(e).__name__, str(e)[:100]))
+                break
+            if [dp.name for dp in data] != keep or [dp.idx for dp in data] != list(range(len(keep))) or list(smp) != sorted(samples):
+                res["problems"].append("kept %r / samples %r, expected %r / %r" % ([dp.name for dp in data], list(smp), keep, sorted(samples)))
+                break
+            bad = False
+            for dp in data:
+                for k, sname in enumerate(sorted(samples)):
+                    ex = ref_grid(*spec[(dp.name, sname)], "binomial", 400.0, G)
+                    if float(np.max(np.abs(dp.value[k] - ex))) > 1e-7:
+                        res["problems"].append("table with %d rows: mutation %s likelihood row %d is not sample %s's" % (len(rows), dp.name, k, sname))
+                        bad = True
+                        break
+                if bad:
+                    break
+            if bad:
+                break
+    finally:
+        shutil.rmtree(d, ignore_errors=True)
+    return res
+
+
 def bad_cn_case(item):
     which, sep = item
     from phyclone.utils.exceptions import MajorCopyNumberError
@@ -210,6 +276,17 @@ def main(tier, seed):
                           {"item": list(r["item"])})
         if len(chk.samples) < 3 and r["class"] == "normal" and st.count("ok") == 4:
             chk.sample({"cells": dict(zip(["%s/%s" % k for k in itertools.product(MUTS, SAMPLES)], st)), "row_orders_loaded": r["loads"]})
+    litems = []
+    for n_mut, smp in ((9, ["S2", "S1"]), (10, ["S2", "S1"]), (6, ["S2", "S10", "S1"]), (12, ["S2", "S10", "S1"]), (5, ["B", "A", "D", "C"]), (40, ["S2", "S1"])):
+        for sep in ("\t", ","):
+            litems.append((n_mut, smp, sep, 100 + seed))
+    for r in pool_imap(large_case, litems, chunksize=1):
+        chk.transitions += r["loads"]
+        chk.traces_validated += r["loads"]
+        chk.states.add(("large",) + (r["item"][0], tuple(r["item"][1]), r["item"][2]))
+        chk.nontrivial.add(("large",) + (r["item"][0], tuple(r["item"][1]), r["item"][2]))
+        for pr in r["problems"][:2]:
+            chk.violation({"sub": "load-large-table", "what": pr.split(":")[0][:40]}, {"mutations": r["item"][0], "samples": r["item"][1], "problem": pr}, {"large": [r["item"][0], r["item"][1], r["item"][2], r["item"][3]]})
     for which in itertools.product(MUTS, SAMPLES):
         for sep in ("\t", ","):
             r = bad_cn_case((which, sep))
@@ -223,7 +300,9 @@ def main(tier, seed):
 def replay(path):
     body = json.load(open(path))
     rp = body["replay"]
-    if "bad_cn" in rp:
+    if "large" in rp:
+        r = large_case((rp["large"][0], rp["large"][1], rp["large"][2], rp["large"][3]))
+    elif "bad_cn" in rp:
         r = bad_cn_case((tuple(rp["bad_cn"]), "\t"))
     else:
         it = rp["item"]
